@@ -505,3 +505,20 @@ def proof_stage(ctx, prop_id=None, search=None):
                           {"kind": "broken-proof", "theorem": res.get("failed_theorem"), "at": res.get("failed_at"),
                            "gate": res.get("gate"), "log_tail": tail}, no_input=True)
     return res
+
+
+def coqchk_stage(ctx, prop_id=None, timeout=1500):
+    """Thorough tier: re-check the compiled property file and everything it depends on with the independent checker
+    coqchk and record the axioms it lists."""
+    prop_id = prop_id or ctx.prop
+    r = run(["coqchk", "-o", "-silent", "-Q", ".", "ORatio", "ORatio.props.Properties_%s" % prop_id], cwd=COQ, timeout=timeout)
+    out = (r.out + r.err)
+    i = out.find("CONTEXT SUMMARY")
+    summ = out[i:] if i >= 0 else out[-2000:]
+    ctx.cov["coqchk"] = {"rc": r.rc, "timed_out": r.timed_out, "summary": summ.strip()[:3000], "secs": round(r.secs, 1)}
+    m = re.search(r"\* Axioms:(.*?)\n\s*\n\* Constants", summ, re.S)
+    if m:
+        ctx.cov["coqchk"]["axioms"] = [a.strip() for a in m.group(1).strip().split("\n") if a.strip()]
+    if not r.timed_out and r.rc != 0:
+        ctx.violation("coqchk:" + prop_id, {"kind": "coqchk-rejected", "theorem": "ORatio.props.Properties_%s" % prop_id, "log_tail": out[-3000:]}, no_input=True)
+    return r
